@@ -324,7 +324,8 @@ class ApplicationAssociationRequest:
             aarq_data.extend(BER.encode(0x8A, self.sender_acse_requirements.to_bytes()))
         if self.mechanism_name is not None:
             aarq_data.extend(BER.encode(0x8B, self.mechanism_name.to_bytes()))
-        if self.authentication_value is not None:
+        if self.authentication_value is not None and self.mechanism_name is not None:
+            # only part of the authentication functional unit.
             aarq_data.extend(
                 BER.encode(
                     0xAC,
